@@ -5,7 +5,8 @@ Applies each patch to /repo, runs the checks, undoes it. Writes evidence/selftes
 import os, sys, json, glob, subprocess, time
 VERIF = os.path.dirname(os.path.dirname(os.path.abspath(__file__)))
 REPO = os.environ.get('VERIF_REPO', '/repo')
-HARMLESS_PROPS = {'H1': ['C05'], 'H2': ['C06'], 'H3': ['C10'], 'H4': ['C04'], 'H5': ['C01'], 'H6': ['C09']}
+HARMLESS_PROPS = {'H1': ['C05'], 'H2': ['C06'], 'H3': ['C10'], 'H4': ['C04'], 'H5': ['C01'], 'H6': ['C09'],
+                  'H11': ['C02'], 'H12': ['C03'], 'H13': ['C02'], 'H14': ['C05'], 'H15': ['C02'], 'H16': ['C08'], 'H17': ['C06'], 'H18': ['C11'], 'H19': ['C05'], 'H20': ['C13']}
 
 def sh(cmd, **kw):
     return subprocess.run(cmd, shell=True, stdout=subprocess.PIPE, stderr=subprocess.STDOUT, text=True, **kw)
